@@ -102,6 +102,9 @@ pub enum Kind {
     DynPickup,
     /// dynamic delivery (second task of a pickup-delivery job)
     DynDelivery,
+    /// static delivery of `size` AND static pickup of the given amount at one activity (the pragmatic "replacement" task,
+    /// or a delivery merged with a pickup): `size` is on board from the start, the pickup stays to the end
+    Exchange(i32),
 }
 
 impl Kind {
@@ -112,6 +115,7 @@ impl Kind {
             Kind::Pickup => "pickup",
             Kind::DynPickup => "dyn-pickup",
             Kind::DynDelivery => "dyn-delivery",
+            Kind::Exchange(_) => "exchange",
         }
     }
 }
@@ -302,7 +306,7 @@ pub struct SimReport {
 /// removes; the load is within [0, capacity] all the time.
 pub fn simulate(geo: &Geo, veh: &VehicleSpec, stops: &[SimStop]) -> Result<SimReport, SimFail> {
     let mut rep = SimReport::default();
-    let mut load: i32 = stops.iter().filter(|s| s.kind == Kind::Delivery).map(|s| s.size).sum();
+    let mut load: i32 = stops.iter().filter(|s| matches!(s.kind, Kind::Delivery | Kind::Exchange(_))).map(|s| s.size).sum();
     rep.start_load = load;
     rep.peak_load = load;
     if load > veh.capacity {
@@ -323,6 +327,7 @@ pub fn simulate(geo: &Geo, veh: &VehicleSpec, stops: &[SimStop]) -> Result<SimRe
             Kind::None => {}
             Kind::Delivery => load -= stop.size,
             Kind::Pickup => load += stop.size,
+            Kind::Exchange(pickup) => load += pickup - stop.size,
             Kind::DynPickup => {
                 load += stop.size;
                 open_pairs.push(stop.pair);
@@ -442,6 +447,7 @@ fn build_single(idx: usize, task_idx: Option<usize>, task: &TaskSpec, value: Opt
         Kind::Pickup => b.demand(Demand::pickup(task.size)),
         Kind::DynPickup => b.demand(Demand::pudo_pickup(task.size)),
         Kind::DynDelivery => b.demand(Demand::pudo_delivery(task.size)),
+        Kind::Exchange(pickup) => b.demand(Demand { pickup: Demand::pickup(pickup).pickup, delivery: Demand::delivery(task.size).delivery }),
     };
     if let Some(value) = value {
         b = b.dimension(|d| d.set_value::<JobValueKey, f64>(value));
@@ -784,10 +790,11 @@ pub fn gen_route(rng: &mut Rng, geo: &Geo, vehicles: &mut [VehicleSpec], vehicle
         let (kind, size) = match slot_pair[slot] {
             Some((pair, true)) => (Kind::DynPickup, pair_size[pair]),
             Some((pair, false)) => (Kind::DynDelivery, pair_size[pair]),
-            None => match rng.below(5) {
+            None => match rng.below(6) {
                 0 => (Kind::None, 0),
                 1 | 2 => (Kind::Delivery, rng.range_i64(1, 3) as i32),
-                _ => (Kind::Pickup, rng.range_i64(1, 3) as i32),
+                3 | 4 => (Kind::Pickup, rng.range_i64(1, 3) as i32),
+                _ => (Kind::Exchange(rng.range_i64(1, 3) as i32), rng.range_i64(1, 3) as i32),
             },
         };
         let mut task = TaskSpec { places: vec![PlaceSpec { loc: at, dur, windows: vec![win] }], kind, size };
@@ -869,10 +876,15 @@ pub fn gen_candidate(rng: &mut Rng, spec: &MicroSpec, route: &RouteSpec, multi: 
     if !multi {
         let loc = rng.usize_below(geo.size());
         let arrival = at_position(pos, loc);
-        let (kind, size) = match rng.below(5) {
+        let (kind, size) = match rng.below(6) {
             0 => (Kind::None, 0),
             1 | 2 => (Kind::Delivery, around_size(rng)),
-            _ => (Kind::Pickup, around_size(rng)),
+            3 | 4 => (Kind::Pickup, around_size(rng)),
+            // equal amounts (a replacement: net change zero) or unequal ones
+            _ => {
+                let size = around_size(rng);
+                (Kind::Exchange(if rng.chance(0.5) { size } else { around_size(rng) }), size)
+            }
         };
         let mut task = TaskSpec { places: vec![PlaceSpec { loc, dur: *rng.pick(&[0., 0., 1., 2., 3., 6.]), windows: vec![gen_window(rng, arrival)] }], kind, size };
         add_decoys(rng, geo, &mut task, arrival, 0.3, 0.25);
